@@ -469,6 +469,9 @@ def current_operands(ctx, rule, only=None):
 
 
 def run(ctx):
+    # contents are keyed by Substance objects: the key laws this property's bookkeeping relies on
+    from .identity import identity_discipline as _identity
+    _identity(ctx, 'C08.R1', classes=('Substance',), memoised=False)
     model = ctx.model
     bake = model.func('Recipe.bake')
     ff = ctx.flow('Recipe.bake')
